@@ -17,11 +17,28 @@ RULE = ("2-6 initial systems with priorities in {0,1,2} (ties), 1-3 scripts (act
         "priority/registration order; removed-before-turn never runs; mid-timestep registrations run 0 or 1 times; "
         "unscripted timesteps follow C01 order exactly). Non-trivial: the acting system is not last in the order and "
         "performs a removal or a higher/equal-priority insertion. Distinct = digest of the case."
-        " Added in rounds 19-24: the very object removed in THIS timestep may be registered again (whether it then runs once is left open, twice is a violation); windows may have a finite last timestep.")
+        " Added in rounds 19-24: the very object removed in THIS timestep may be registered again (whether it then runs once is left open, twice is a violation); windows may have a finite last timestep."
+        " Round 25: requests may span two timesteps (model.execute(2)); every timestep is judged on its own.")
 EXHAUSTIVE_DOMAIN = ("queues of length 2..5 (quick 2..4) over priorities {0,1,2}^n x every actor position x one action "
                      "(remove each target incl. self, or add at priority 0..3), 3 timesteps, action at t=1")
 ASSUMPTIONS = ["mid-timestep registrations are new objects (fresh or re-used ids) or the very object that was removed in an earlier timestep",
                "whether a system registered mid-timestep runs in that timestep is left open (0 or 1 runs accepted)"]
+
+
+class _Events(list):
+    """the event log; every entry also remembers the timestep at which it was written (for requests that span two timesteps)"""
+    def __init__(self, world):
+        super().__init__()
+        self.world = world
+        self.ts = []
+
+    def append(self, item):
+        super().append(item)
+        self.ts.append(self.world.model.systems.timestep)
+
+    def reset(self):
+        del self[:]
+        del self.ts[:]
 
 
 class Scripted(System):
@@ -59,7 +76,8 @@ class World:
     def __init__(self, case):
         self.raised = set()
         self.model = Model()
-        self.events = []
+        self.events = _Events(self)
+        self.starts = {}         # timestep -> scheduling order when its first system started
         self.all = []            # token -> system
         self.live = {}           # token -> (prio, seq)
         self.seq = 0
@@ -117,8 +135,9 @@ class World:
         tok = system.token
         if tok < 0:
             raise Violation("rejected-object-ran", "an object whose registration was rejected (id in use) was executed")
-        self.events.append(("run", tok))
         t = self.model.systems.timestep
+        self.starts.setdefault(t, self.order())
+        self.events.append(("run", tok))
         if not self.due(tok, t):
             raise Violation("ran-while-not-due", f"timestep {t}: system {tok} ran outside its window (start, frequency) = {self.win[tok]}")
         for act in self.scripts.get((tok, t), ()):
@@ -196,13 +215,50 @@ def run_case(case):
                 dlog.append(self.id)
         for i in range(len(w.all)):
             decoy.systems.add_system(_D(f"sys{i}", decoy, priority=i % 3))
+    def verify_step(t, start, ev):
+            runs = [x for k, x in ev if k == "run"]
+            removed = {x for k, x in ev if k == "removed"}
+            # (1) nobody twice
+            for tok in set(runs):
+                if runs.count(tok) > 1:
+                    raise Violation("ran-twice", f"timestep {t}: system {tok} ran {runs.count(tok)} times; start order {start}, events {ev}")
+            # (2)+(3) stayers run exactly once, in order
+            start = [tok for tok in start if w.due(tok, t)]       # the systems due in this timestep, in scheduling order
+            stayers = [tok for tok in start if tok not in removed]
+            missing = [tok for tok in stayers if tok not in runs]
+            if missing:
+                raise Violation("skipped", f"timestep {t}: systems {missing} stayed registered but did not run; start order {start}, events {ev}")
+            got = [tok for tok in runs if tok in stayers]
+            if got != stayers:
+                raise Violation("order", f"timestep {t}: stayers ran in order {got}, expected {stayers}; events {ev}")
+            # (4) removed before its turn -> never runs afterwards
+            gone = set()
+            ran = set()
+            for k, x in ev:
+                if k == "run":
+                    if x in gone:
+                        raise Violation("ran-after-removal", f"timestep {t}: system {x} ran after it was removed; start order {start}, events {ev}")
+                    ran.add(x)
+                elif k == "removed":
+                    gone.add(x)
+                elif k == "added":
+                    gone.discard(x)       # registered again within the timestep: whether it runs (once) in this timestep is left open
+            # (6) a timestep in which nothing changed follows C01 order exactly
+            if not any(k != "run" for k, _ in ev):
+                if runs != start:
+                    raise Violation("quiet-step-order", f"timestep {t}: ran {runs}, expected {start}")
+            pass
+
+    has_raise = any(a_.get("a") == "raise" for s_ in case["scripts"] for a_ in s_["actions"])
     done = 0
     for _ in range(steps + 3):
         if done >= steps:
             break
         t = w.model.systems.timestep
         start = w.order()
-        del w.events[:]
+        w.events.reset()
+        w.starts.clear()
+        double_now = bool(case.get("double")) and not has_raise and (t + len(case["systems"])) % 2 == 0 and done + 2 <= steps
         if decoy is not None:
             w.labels.add("second-model-alive")
             victim = f"sys{t % max(1, len(case['systems']))}"
@@ -212,7 +268,10 @@ def run_case(case):
                 decoy.systems.add_system(_D(victim, decoy, priority=5))
             decoy.execute()
         try:
-            w.model.execute()
+            if double_now:
+                w.model.execute(2)
+            else:
+                w.model.execute()
         except Boom:
             # the timestep was cut short by user code; the caller caught the error. Nothing is claimed about the rest of THAT
             # timestep, but what did run must obey the rules (no double run, nothing after its removal) and every later
@@ -231,40 +290,26 @@ def run_case(case):
                 if k == "added":
                     gone.discard(x)       # registered again: whether it first runs in this timestep or the next is left open
             continue
-        done += 1
-        ev = list(w.events)
-        runs = [x for k, x in ev if k == "run"]
-        removed = {x for k, x in ev if k == "removed"}
-        # (1) nobody twice
-        for tok in set(runs):
-            if runs.count(tok) > 1:
-                raise Violation("ran-twice", f"timestep {t}: system {tok} ran {runs.count(tok)} times; start order {start}, events {ev}")
-        # (2)+(3) stayers run exactly once, in order
-        start = [tok for tok in start if w.due(tok, t)]       # the systems due in this timestep, in scheduling order
-        stayers = [tok for tok in start if tok not in removed]
-        missing = [tok for tok in stayers if tok not in runs]
-        if missing:
-            raise Violation("skipped", f"timestep {t}: systems {missing} stayed registered but did not run; start order {start}, events {ev}")
-        got = [tok for tok in runs if tok in stayers]
-        if got != stayers:
-            raise Violation("order", f"timestep {t}: stayers ran in order {got}, expected {stayers}; events {ev}")
-        # (4) removed before its turn -> never runs afterwards
-        gone = set()
-        ran = set()
-        for k, x in ev:
-            if k == "run":
-                if x in gone:
-                    raise Violation("ran-after-removal", f"timestep {t}: system {x} ran after it was removed; start order {start}, events {ev}")
-                ran.add(x)
-            elif k == "removed":
-                gone.add(x)
-            elif k == "added":
-                gone.discard(x)       # registered again within the timestep: whether it runs (once) in this timestep is left open
-        # (6) a timestep in which nothing changed follows C01 order exactly
-        if not any(k != "run" for k, _ in ev):
-            if runs != start:
-                raise Violation("quiet-step-order", f"timestep {t}: ran {runs}, expected {start}")
-        check(w.model.systems.timestep == t + 1, "timestep", f"timestep is {w.model.systems.timestep} after a completed step from {t}")
+        if double_now:
+            done += 2
+            both = list(zip(list(w.events), list(w.events.ts)))
+            ev1 = [e for e, ts_ in both if ts_ == t]
+            ev2 = [e for e, ts_ in both if ts_ == t + 1]
+            stray = [(e, ts_) for e, ts_ in both if ts_ not in (t, t + 1)]
+            if stray:
+                raise Violation("timestep", f"a request for two timesteps from {t} produced events at other timesteps: {stray[:4]}")
+            verify_step(t, start, ev1)
+            if ev2:
+                start2 = w.starts.get(t + 1, w.order())
+            else:
+                start2 = w.order()          # nothing happened in the second timestep: the order is the one the first left behind
+            verify_step(t + 1, start2, ev2)
+            check(w.model.systems.timestep == t + 2, "timestep", f"timestep is {w.model.systems.timestep} after a completed request for 2 steps from {t}")
+            w.labels.add("request-spanning-two-timesteps")
+        else:
+            done += 1
+            verify_step(t, start, list(w.events))
+            check(w.model.systems.timestep == t + 1, "timestep", f"timestep is {w.model.systems.timestep} after a completed step from {t}")
     if len(case["systems"]) > 32:
         w.labels.add("queue>32")
     return {"nontrivial": w.nontrivial, "labels": sorted(w.labels)}
@@ -295,7 +340,7 @@ def strategy(tier):
                                     "actions": st.lists(_action(), min_size=1, max_size=3)})
     small = st.fixed_dictionaries({"systems": st.lists(st.integers(0, 2), min_size=2, max_size=6),
                                    "scripts": st.lists(script, min_size=1, max_size=3),
-                                   "steps": st.integers(3, 5), "eq": st.booleans(), "decoy": st.sampled_from([False, False, False, True]),
+                                   "steps": st.integers(3, 5), "eq": st.booleans(), "double": st.sampled_from([False, False, True]), "decoy": st.sampled_from([False, False, False, True]),
                                    "windows": st.one_of(st.just([]), st.just([]), st.lists(st.sampled_from([[0, 1], [0, 1], [0, 2], [1, 2], [1, 3], [2, 1], [0, 5], [0, 1, 0], [0, 1, 1], [0, 1, 2], [0, 1, 3], [1, 2, 3]]),
                                                                                             min_size=2, max_size=6))})
     return wone_of(*([small] * 9 + [_large(tier)]))
